@@ -171,35 +171,48 @@ def scanExp : Str → Option (Int × Nat × Str)
         if neg then (if v > 2 ^ 63 then none else some (-(v : Int), base, rest))
         else (if v ≥ 2 ^ 63 then none else some ((v : Int), base, rest))
 
+/-- The arithmetic half of `Float.scan`: from the scanned mantissa (`mant ≠ 0`),
+    digit count `fcount` (≤ 0: a radix point with `-fcount` fraction digits), exponent
+    and exponent base to the rounded float. `none` = "exponent overflow" error. -/
+def buildFloat (neg : Bool) (mant : Nat) (fcount exp : Int) (ebase : Nat) : Option BF :=
+  let d : Int := if fcount < 0 then fcount else 0
+  let exp2 : Int := (bitLen mant : Int) + d + exp
+  let exp5 : Int := d + (if ebase = 10 then exp else 0)
+  if exp2 < minExp || exp2 > maxExp then none
+  else if exp5 = 0 then some (finish neg .away prec mant (d + exp) false)
+  else if exp5 < 0 then some (quo .away prec (.fin neg mant (d + exp)) (pow5 (-exp5).toNat))
+  else some (mul .away prec (.fin neg mant (d + exp)) (pow5 exp5.toNat))
+
+/-- `count` as returned by `nat.scan`: the digit count, or, when a radix point was
+    seen at position `dp`, `dp - count` (minus the number of fraction digits). -/
+def fcountOf (dp : Option Nat) (count : Nat) : Int :=
+  match dp with
+  | some p => (p : Int) - (count : Int)
+  | none => (count : Int)
+
+/-- `Float.scan` after the sign, plus the end-of-string check of `Float.Parse`. -/
+def scanBody (neg : Bool) (r : Str) : Option BF :=
+  let ms := scanMant r true 0 0 none
+  if ms.count = 0 then none
+  else
+    match scanExp ms.rest with
+    | none => none
+    | some (exp, ebase, rest) =>
+      if ms.mant = 0 then (if rest = [] then some (.zero neg) else none)
+      else
+        match buildFloat neg ms.mant (fcountOf ms.dp ms.count) exp ebase with
+        | none => none
+        | some z => if rest = [] then some z else none
+
 /-- `Float.scan` + the end-of-string check of `Float.Parse`, for conversion base 10,
     precision `prec`, mode AwayFromZero. `none` = an error is returned. -/
 def scanFloat (s : Str) : Option BF :=
   match s with
   | [] => none
   | c0 :: t0 =>
-    let (neg, r) : Bool × Str :=
-      if c0 = '-' then (true, t0) else if c0 = '+' then (false, t0) else (false, s)
-    let ms := scanMant r true 0 0 none
-    if ms.count = 0 then none
-    else
-      match scanExp ms.rest with
-      | none => none
-      | some (exp, ebase, rest) =>
-        if ms.mant = 0 then (if rest = [] then some (.zero neg) else none)
-        else
-          let fcount : Int := match ms.dp with
-            | some p => (p : Int) - (ms.count : Int)
-            | none => (ms.count : Int)
-          let d : Int := if fcount < 0 then fcount else 0
-          let exp2 : Int := (bitLen ms.mant : Int) + d + exp
-          let exp5 : Int := d + (if ebase = 10 then exp else 0)
-          if exp2 < minExp || exp2 > maxExp then none
-          else
-            let z : BF :=
-              if exp5 = 0 then finish neg .away prec ms.mant (d + exp) false
-              else if exp5 < 0 then quo .away prec (.fin neg ms.mant (d + exp)) (pow5 (-exp5).toNat)
-              else mul .away prec (.fin neg ms.mant (d + exp)) (pow5 exp5.toNat)
-            if rest = [] then some z else none
+    if c0 = '-' then scanBody true t0
+    else if c0 = '+' then scanBody false t0
+    else scanBody false s
 
 /-- `big.ParseFloat(s, 10, prec, big.AwayFromZero)`. -/
 def parseFloat (s : Str) : Option BF :=
